@@ -109,7 +109,7 @@ let () =
          | "K1013", _ -> if !primary_ptr = 0 then primary_ptr := aptr
          | "K1014", [op; idx; c] ->
            let op = int_of_string op and idx = int_of_string idx in
-           if op = Char.code 'C' then begin
+           if op = Char.code 'C' || op = Char.code 'c' then begin
              let h = int_of_string c in if h <> 0 then Hashtbl.replace idx_ptr idx h end
            else if op = Char.code 'J' || op = Char.code 'F' then begin
              (match Hashtbl.find_opt idx_ptr idx with
@@ -181,7 +181,9 @@ let () =
          | "LINKLD", [t; l; _] -> let u = unit_id ln (hex t) in
            let l = if hex l = 0 then None else Some (nat_of (unit_id ln (hex l))) in
            apply ln desc (ELinkLd (nat_of u, l)) [u] [] []
-         | "CB", [t; k; _] -> let u = unit_id ln (hex t) in apply ln desc (ECb (nat_of u, cbk_of (hex k))) [u] [] []
+         | "CB", [t; k; o] -> let u = unit_id ln (hex t) in
+           if hex o = 0 then apply ln desc (ECb (nat_of u, cbk_of (hex k), None)) [u] [] []
+           else let ou = unit_id ln (hex o) in apply ln desc (ECb (nat_of u, cbk_of (hex k), Some (nat_of ou))) [u; ou] [] []
          | "FUTEXRES", [j; _; _] ->
            let d = unit_id ln (hex j) in
            (match Hashtbl.find_opt dummy_target d with
@@ -215,7 +217,7 @@ let () =
   List.iter (fun (i, kv) ->
       let g k = int_of_string (List.assoc k kv) in
       if g "created" = 1 then begin
-        if g "entries" > 1 then bad := Printf.sprintf "unit%d:started-%d-times" i (g "entries") :: !bad;
+        if g "entries" > 1 + g "revives" then bad := Printf.sprintf "unit%d:started-%d-times" i (g "entries") :: !bad;
         if g "finished" > g "entries" then bad := Printf.sprintf "unit%d:finished-more-than-started" i :: !bad;
         if g "badarg" <> 0 then bad := Printf.sprintf "unit%d:wrong-argument" i :: !bad
       end) !unitstat;
@@ -226,5 +228,5 @@ let () =
   if !mism = None && !status = "DONE" then
     Hashtbl.iter (fun idx u ->
         let r = (!cur).un (nat_of u) in
-        if int_of_nat r.starts <> 1 then bad := Printf.sprintf "model:unit%d-starts=%d" idx (int_of_nat r.starts) :: !bad) idx_uid;
+        if int_of_nat r.starts > 1 then bad := Printf.sprintf "model:unit%d-starts=%d" idx (int_of_nat r.starts) :: !bad) idx_uid;
   if !bad = [] then print_endline "MON ok" else print_endline ("MONFAIL " ^ String.concat " " (List.rev !bad))
